@@ -3,6 +3,7 @@ package main
 import (
 	"fmt"
 	"io"
+	"math/big"
 	"net/netip"
 	"os"
 	"strings"
@@ -117,17 +118,9 @@ func (g *genCtx) pickUsed(kind string, pool []string) string {
 	return wire.Pick(g.r, pool)
 }
 
-func ipNum(s string) uint32 {
-	a, err := netip.ParseAddr(s)
-	if err != nil {
-		return 0
-	}
-	b := a.As4()
-	return uint32(b[0])<<24 | uint32(b[1])<<16 | uint32(b[2])<<8 | uint32(b[3])
-}
-
-// ipNear: an address inside / at the edge of / just outside a block used by the policies.
-func (g *genCtx) ipNear() uint32 {
+// ipNear: an address inside / at the edge of / just outside a block used by the policies (token form,
+// see ipTok): IPv4 and IPv6.
+func (g *genCtx) ipNear() string {
 	r := g.r
 	if u := g.used["ip"]; len(u) > 0 && r.Chance(2, 3) {
 		v := wire.Pick(r, u)
@@ -139,29 +132,48 @@ func (g *genCtx) ipNear() uint32 {
 			var a netip.Addr
 			a, err = netip.ParseAddr(v)
 			if err == nil {
-				pfx = netip.PrefixFrom(a, 32)
+				pfx = netip.PrefixFrom(a, a.BitLen())
 			}
 		}
-		if err == nil && pfx.Addr().Is4() {
-			base := ipNum(pfx.Masked().Addr().String())
-			size := uint64(1) << uint(32-pfx.Bits())
-			switch r.Intn(6) {
+		if err == nil {
+			width := pfx.Addr().BitLen()
+			bytes := pfx.Masked().Addr().AsSlice()
+			base := new(big.Int).SetBytes(bytes)
+			size := new(big.Int).Lsh(big.NewInt(1), uint(width-pfx.Bits()))
+			mod := new(big.Int).Lsh(big.NewInt(1), uint(width))
+			var n *big.Int
+			switch r.Intn(7) {
 			case 0:
-				return base
+				n = base
 			case 1:
-				return uint32(uint64(base) + size - 1)
+				n = new(big.Int).Sub(new(big.Int).Add(base, size), big.NewInt(1))
 			case 2:
-				return uint32(uint64(base) + size) // first outside (wraps for /0)
+				n = new(big.Int).Add(base, size) // first outside (wraps for /0)
 			case 3:
-				return base - 1
+				n = new(big.Int).Sub(base, big.NewInt(1))
 			case 4:
-				return ipNum(pfx.Addr().String())
+				n = new(big.Int).SetBytes(pfx.Addr().AsSlice())
+			case 5:
+				// the same number in the other family: must never match
+				if width == 32 {
+					return "6:" + base.String()
+				}
+				return new(big.Int).And(base, big.NewInt(0xffffffff)).String()
 			default:
-				return uint32(uint64(base) + uint64(r.Intn(int(min64(size, 1<<20)))))
+				off := big.NewInt(int64(r.Intn(1 << 20)))
+				n = new(big.Int).Add(base, off.Mod(off, size))
 			}
+			n.Mod(n.Add(n, mod), mod)
+			if width == 32 {
+				return n.String()
+			}
+			return "6:" + n.String()
 		}
 	}
-	return ipNum(wire.Pick(r, reqIPs))
+	if r.Chance(1, 10) {
+		return ipToken(netip.MustParseAddr(wire.Pick(r, reqIPs6)))
+	}
+	return ipToken(netip.MustParseAddr(wire.Pick(r, reqIPs)))
 }
 
 func min64(a, b uint64) uint64 {
@@ -175,7 +187,7 @@ func (g *genCtx) genReq(http bool) string {
 	r := g.r
 	var t []string
 	t = append(t, "req")
-	t = append(t, fmt.Sprintf("sip=%d", g.ipNear()), fmt.Sprintf("rip=%d", g.ipNear()), fmt.Sprintf("dip=%d", g.ipNear()))
+	t = append(t, "sip="+g.ipNear(), "rip="+g.ipNear(), "dip="+g.ipNear())
 	// port
 	port := uint32(0)
 	pv := g.pickUsed("port", poolPort)
@@ -202,6 +214,9 @@ func (g *genCtx) genReq(http bool) string {
 		}
 		if u := g.used["td"]; len(u) > 0 && r.Chance(1, 2) {
 			td = wire.Pick(r, u)
+		}
+		if r.Chance(1, 40) {
+			ns = wire.Pick(r, []string{"ns", "sa"}) // namespaces named like the SPIFFE path keywords
 		}
 		// near misses: other namespace / sa / trust domain, one char off; never '/' or empty inside an identity
 		clean := func(s, dflt string) string {
